@@ -318,6 +318,11 @@ def get_python_constraint_from_marker(
     if python_marker.is_empty():
         return EmptyConstraint()
 
+    if dnf(marker).is_empty():
+        # e.g. a conjunction of unions that only turns out to be unsatisfiable in
+        # disjunctive normal form: no group at all does not mean "any python"
+        return EmptyConstraint()
+
     markers = convert_markers(marker)
     if contains_group_without_marker(markers, "python_version"):
         # groups are in disjunctive normal form (DNF),
